@@ -18,7 +18,8 @@ from vf import S, Lst, sx_opt
 LANGS = [('typescript', 'ts', [], {}), ('kotlin', 'kt', ['--java-package', 'p'], {'package': 'p'}), ('swift', 'swift', [], {}),
          ('scala', 'scala', ['--scala-package', 'p'], {'package': 'p'}), ('go', 'go', ['--go-package', 'p'], {'package': 'p'}), ('python', 'py', [], {})]
 IMPORT_LANGS = ('typescript', 'kotlin')
-CRATE_DIRS = ['alpha', 'beta-core', 'gamma_util', 'op-proxy2', 'x9', 'data-model', 'net_io', 'a1-b2_c3', 'delta', 'my-crate', 'core2', 'zeta_9-x', 'k-8s', 'u_i']
+CRATE_DIRS = ['alpha', 'beta-core', 'gamma_util', 'op-proxy2', 'x9', 'data-model', 'net_io', 'a1-b2_c3', 'delta', 'my-crate', 'core2', 'zeta_9-x', 'k-8s', 'u_i',
+              'two-dash-crate', 'x-y-z', 'q--r']
 SUBDIRS = [[], [], ['m1'], ['m1', 'm2'], ['deep', 'er', 'est'], ['api'], ['model', 'v1'], ['a', 'b', 'c']]
 GROUPS = [[], [], [], ['libs'], ['crates', 'shared']]
 FILE_STEMS = ['lib', 'mod', 'types', 'x', 'model', 'dto', 'y2']
@@ -232,13 +233,49 @@ def gen_workspace(rng, allow_const):
                 ws.tags.add('same-name-unknown-crate')
             refs.append(('user', 'Shared', []))
         if refs:
+            # the item that carries the references: a struct, an algebraic enum (tuple and struct variants),
+            # a type alias or a newtype - reconcile_referenced_types walks each kind separately
             it = progs.Item()
             link += 1
-            it.ident, it.kind = f'Link{link}', 'struct'
-            for k, t in enumerate(refs):
-                fld = progs.Field()
-                fld.ident, fld.ty = f'r{k}', t
-                it.fields.append(fld)
+            it.ident = f'Link{link}'
+            shape = rng.random()
+            if shape < 0.45:
+                it.kind = 'struct'
+                for k, t in enumerate(refs):
+                    fld = progs.Field()
+                    fld.ident, fld.ty = f'r{k}', t
+                    it.fields.append(fld)
+                ws.tags.add('refs-in-struct')
+            elif shape < 0.8:
+                it.kind, it.tag, it.content = 'alg_enum', 't', 'c'
+                for k, t in enumerate(refs):
+                    v = progs.Variant()
+                    v.ident = f'V{k}'
+                    if rng.random() < 0.5:
+                        v.kind, v.ty = 'tuple', t
+                        ws.tags.add('refs-in-tuple-variant')
+                    else:
+                        v.kind = 'struct'
+                        fld = progs.Field()
+                        fld.ident, fld.ty = f'r{k}', t
+                        v.fields = [fld]
+                        ws.tags.add('refs-in-struct-variant')
+                    it.variants.append(v)
+                if rng.random() < 0.3:
+                    v = progs.Variant()
+                    v.ident = 'Nothing'
+                    it.variants.append(v)
+            else:
+                it.kind, it.ty = rng.choice(['alias', 'newtype']), refs[0]
+                ws.tags.add('refs-in-' + it.kind)
+                if len(refs) > 1:
+                    it2 = progs.Item()
+                    it2.ident, it2.kind = f'Link{link}Rest', 'struct'
+                    for k, t in enumerate(refs[1:]):
+                        fld = progs.Field()
+                        fld.ident, fld.ty = f'r{k}', t
+                        it2.fields.append(fld)
+                    f['prog'].items.append(it2)
             f['prog'].items.append(it)
     for c in crates:
         if c.get('globbed', set()) & c.get('explicit', set()) or 'od' in c:
@@ -304,6 +341,13 @@ def corpus():
     mk('type-mapping', {'a/src/lib.rs': A, 'b/src/lib.rs': 'use a::{A1, A3};\n#[typeshare]\npub struct B1 { pub f: A1, pub g: A3 }\n'}, mappings={'A3': 'string'})
     mk('nested-use-tree', {'a/src/lib.rs': A, 'c/src/lib.rs': '#[typeshare]\npub enum C1 { X, Y }\n',
                            'b/src/d1/d2/d3/f.rs': 'use a::m::{x::A1, y::z::{A3}};\nuse c::{self, C1};\n#[typeshare]\npub struct B1 { pub f: A1, pub g: Option<A3>, pub h: C1 }\n'})
+    mk('two-dashes', {'my-two-dash/src/lib.rs': A, 'q--r/src/lib.rs': 'use my_two_dash::A1;\n#[typeshare]\npub struct Q1 { pub f: A1 }\n',
+                      'b/src/lib.rs': 'use my_two_dash::A3;\nuse q__r::Q1;\n#[typeshare]\npub struct B1 { pub f: A3, pub g: Q1 }\n'})
+    mk('refs-in-variants', {'a/src/lib.rs': A, 'c/src/lib.rs': '#[typeshare]\npub struct C1 { pub x: u8 }\n#[typeshare]\npub struct C2 { pub x: u8 }\n',
+                            'b/src/lib.rs': 'use a::{A1, A3};\nuse c::{C1, C2};\n#[typeshare]\n#[serde(tag = "t", content = "c")]\npub enum E1 { V0(A1), V1 { f: Vec<A3> }, V2 }\n'
+                                            '#[typeshare]\npub type L1 = Option<C1>;\n#[typeshare]\npub struct N1(C2);\n'})
+    mk('nested-tree-wrong-base', {'a/src/lib.rs': A, 'x/src/lib.rs': '#[typeshare]\npub struct X1 { pub x: u8 }\n',
+                                  'b/src/lib.rs': 'use a::x::{y::A1, z::{A3}};\nuse x::a::X1;\n#[typeshare]\npub struct B1 { pub f: A1, pub g: A3, pub h: X1 }\n'})
     mk('generic-param-not-a-reference', {'a/src/lib.rs': '#[typeshare]\npub struct U { pub x: u8 }\n', 'b/src/lib.rs': 'use a::U;\n#[typeshare]\npub struct B1<U> { pub f: U }\n'})
     return out
 
